@@ -60,14 +60,19 @@ prop("C09", "nitrocheck",
 
 prop("C10", "nitrocheck",
      [dict(name="TestC10", quick=700, thorough=10000, thorough_shards=12, steps=40),
-      dict(name="TestC10Conc", quick=300, thorough=3000, thorough_shards=4, steps=30)],
+      dict(name="TestC10Conc", quick=300, thorough=3000, thorough_shards=4, steps=30),
+      dict(name="TestC10Large", quick=60, thorough=1500, thorough_shards=6)],
      rule="rapid state machine: histories with bulk puts/deletes (0-300 items, multi-version, older snapshots held open) and Visitor(snapshot, shards 1-40 or > item count, "
           "concurrency 1-8) with a callback error injected at a drawn (shard,index) in a quarter of the visits; oracle: concatenation of the per-shard callback sequences in "
           "shard order == the snapshot's frozen content; injected error => that error is returned; returns within a 20 s watchdog. Non-trivial: >=2 non-empty shards while "
           "versions invisible to the visited snapshot are physically present (they become pivots), or shards > item count, or an error injected in a non-first shard. "
           "Distinct = distinct hash of the rendered history. TestC10Conc: 1-4 free-running reader goroutines call Visitor (shards 1-12, concurrency 1-4) in a loop on snapshots "
           "they hold while the main goroutine keeps mutating, creating/closing other snapshots and forcing collection; every visit must concatenate to the snapshot's "
-          "content (non-trivial there as for C01: the visited snapshot had later deletes/re-inserts/retirements/collection).",
+          "content (non-trivial there as for C01: the visited snapshot had later deletes/re-inserts/retirements/collection). "
+          "TestC10Large: databases of 10050-14000 items (Visitor refreshes a shard's cursor every 10000 items; pivots come from higher levels), with drawn windows of "
+          "later deletes / delete+re-insert / new keys / same-epoch insert+delete and optional dead-earlier versions placed around the position where the cursor refreshes, "
+          "drawn snapshot releases and a collection pass, then Visitor(shards 1-7, concurrency 1-3) on every open snapshot; same oracle plus Count(). Non-trivial there: "
+          "some shard delivered more than 10000 items (its cursor was re-created in flight) with such versions around.",
      technique="model-based stateful property testing (shard concatenation vs frozen content, error injection); free-running concurrent visits sampled",
      design_ref="DESIGN.md §3 C10",
      level_text="Generated snapshots/shard counts/concurrency/error placements against the frozen content; termination observed through a generous watchdog.",
